@@ -35,10 +35,32 @@ def resolve_event_type(P, cname):
     return v
 
 
-def collected_paths_problems(apps, has_dest, has_src) -> list[str]:
+def collected_items(evs, plist: str) -> list[str]:
+    """What the list `plist` holds at the end of the path: the elements of the display it was bound to, then what was appended
+    (the list may be started as `[x] if cond else []`, filled by append / extend / +=, in the handler or in a helper inlined into it)."""
+    items: list[str] = []
+    for e in evs:
+        if e.kind == "assign" and e.extra.get("name") == plist:
+            t = e.extra.get("term")
+            if isinstance(t, (ast.List, ast.Tuple)):
+                items = [ast.unparse(x) for x in t.elts]
+            elif isinstance(t, ast.BinOp) and isinstance(t.op, ast.Add) and isinstance(t.right, (ast.List, ast.Tuple)) and ast.unparse(t.left) == plist:
+                items = items + [ast.unparse(x) for x in t.right.elts]
+        elif e.kind == "call" and e.extra.get("func") == f"{plist}.append":
+            items.append((e.extra.get("args") or [""])[0])
+        elif e.kind == "call" and e.extra.get("func") == f"{plist}.extend":
+            t = e.extra.get("term")
+            a0 = t.args[0] if isinstance(t, ast.Call) and t.args else None
+            items += [ast.unparse(x) for x in a0.elts] if isinstance(a0, (ast.List, ast.Tuple)) else ["<extend>"]
+        elif e.kind == "call" and e.extra.get("func") in (f"{plist}.insert", f"{plist}.pop", f"{plist}.remove", f"{plist}.clear"):
+            items.append(f"<{e.extra.get('func')}>")
+    return items
+
+
+def collected_paths_problems(got, has_dest, has_src) -> list[str]:
     """Both event paths are collected for matching: dest under its presence test, src when non-empty, each once."""
     out = []
-    got = [(a.extra.get("args") or [""])[0] for a in apps]
+    apps = got
     for which, decided in (("dest", has_dest), ("src", has_src)):
         present = any(f"event.{which}_path" in g for g in got)
         if decided is None and not present:
@@ -162,6 +184,9 @@ def run(ctx) -> None:
         def inline(self, call, func_text, recv_cls, st):
             if isinstance(call.func, ast.Name) and call.func.id.startswith("_") and call.func.id in evmod.functions and call.func.id not in exists_preds:
                 return (evmod.functions[call.func.id], st.selfcls, None)
+            # ... and, inside watchdog.utils.patterns, that module's own private helpers (case folding, the any-match test)
+            if isinstance(call.func, ast.Name) and call.func.id.startswith("_") and st.module is not None and st.module.name == "watchdog.utils.patterns" and st.fn.split(".")[0] != "filter_paths" and call.func.id in st.module.functions and call.func.id != "_match_path":
+                return (st.module.functions[call.func.id], st.selfcls, None)
             return None
 
     en = Enumerator(HCfg(P))
@@ -268,16 +293,11 @@ def run(ctx) -> None:
             msgs.append("dispatch not conditional on the match result")
         # both paths collected
         plist = (mcall[0].extra.get("args") or ["paths"])[0]
-        apps = [e for e in calls if e.extra.get("func") == f"{plist}.append"]
         has_dest = c.get("hasattr(event, 'dest_path')")
         has_src = c.get("event.src_path")
-        for m_ in collected_paths_problems(apps, has_dest, has_src):
+        for m_ in collected_paths_problems(collected_items(p.evs, plist), has_dest, has_src):
             okd = False
             msgs.append(m_)
-        for a in apps:
-            if not re.fullmatch(r"os\.fsdecode\(event\.(src|dest)_path\)", (a.extra.get("args") or [""])[0]):
-                okd = False
-                msgs.append(f"collected path `{(a.extra.get('args') or [''])[0]}` is not fsdecode of an event path")
     ctx.check(okd, RO, "PatternMatchingEventHandler.dispatch", "; ".join(sorted(set(msgs))), pd.loc)
 
     # ---- regex handler
@@ -325,8 +345,7 @@ def run(ctx) -> None:
                     plist = ast.unparse(_c.args[exists_preds[anys[0][0].split("(")[0]][1]])
                 except (SyntaxError, IndexError):
                     pass
-            rapps = [e for e in rcalls if e.extra.get("func") == f"{plist}.append"]
-            for prob in collected_paths_problems(rapps, c.get("hasattr(event, 'dest_path')"), c.get("event.src_path")):
+            for prob in collected_paths_problems(collected_items(p.evs, plist), c.get("hasattr(event, 'dest_path')"), c.get("event.src_path")):
                 okr = False
                 msgs.append(prob)
         ign_atom = [(a, v) for a, v in anys if "self.ignore_regexes" in a]
@@ -424,6 +443,7 @@ def run(ctx) -> None:
         loops = [e for e in p.evs if e.kind == "loop"]
         # the functional spelling:  yield from filter(partial(_match_path, included_patterns=I, excluded_patterns=E, case_sensitive=C), paths)
         yf = [e for e in p.evs if e.kind == "yield_from"]
+        functional = None
         if not loops and len(yf) == 1:
             t = yf[0].extra.get("term")
             t = t.value if isinstance(t, ast.YieldFrom) else t
@@ -475,6 +495,12 @@ def run(ctx) -> None:
                     exc_name = a2.id if isinstance(a2, ast.Name) else None
         it = asg.get(inc_name, "") or "="
         et = asg.get(exc_name, "") or "="
+        if not loops and functional is not None:
+            # ... or the option expressions themselves, written in place (decided per path: the `is None` tests fork)
+            if not isinstance(functional[0], ast.Name):
+                it = "included_patterns= " + ast.unparse(functional[0])
+            if not isinstance(functional[1], ast.Name):
+                et = "excluded_patterns= " + ast.unparse(functional[1])
         if inc is None or exc is None:
             okf = False
             msgs.append("defaults are not applied exactly when the argument is None (no `is None` test on this path)")
@@ -498,8 +524,16 @@ def run(ctx) -> None:
     for p in ps:
         c = p.conds()
         common = [v for a, v in c.items() if "&" in a or "common" in a]
-        inc = next((v for a, v in c.items() if a.startswith("any(") and "included_patterns" in a and ".match(" in a), None)
-        exc = next((v for a, v in c.items() if a.startswith("any(") and "excluded_patterns" in a and ".match(" in a), None)
+        asg0 = {e.extra.get("name"): e.text for e in p.evs if e.kind == "assign"}
+
+        def iterates(a: str, param: str) -> bool:
+            """the any(...) atom ranges over the given parameter, directly or through a local set built from it"""
+            if param in a:
+                return True
+            return any(param in asg0.get(n, "").split("=", 1)[-1] for n in re.findall(r" for \w+ in (\w+)\)", a))
+
+        inc = next((v for a, v in c.items() if a.startswith("any(") and iterates(a, "included_patterns") and ".match(" in a), None)
+        exc = next((v for a, v in c.items() if a.startswith("any(") and iterates(a, "excluded_patterns") and ".match(" in a), None)
         if common and common[0]:
             if p.outcome[0] != "raise" or "ValueError" not in str(p.outcome[1]):
                 okm = False
